@@ -72,6 +72,8 @@ SkipNodes(c) ==
   CASE c \in {"top", "mod", "modI", "modfileI", "modfileO"} ->
          {"fn", "struct", "enum", "union", "impl", "trait", "mod", "const", "static", "type", "use",
           "externcrate", "macrodef", "foreign", "field", "variant", "fn_ml", "struct_ml", "impl_ml",
+          \* positional fields of a tuple struct / a tuple variant
+          "tuplefield", "tuplevariantfield",
           \* the attribute as an inner attribute of the node's own body
           "fn_inner", "impl_inner", "trait_inner", "mod_inner", "foreign_inner",
           \* a skipped declaration directly after an unskipped one of the same kind
